@@ -41,6 +41,22 @@ def make_schema():
                      '        </group>\n'
                      '    </sbe:message>\n') % (n, b, mid, n, b)
             mid += 1
+    # trait-level size formulas with a block length > 1 (C05 big products): one flat and one data-carrying group per
+    # numInGroup width, explicit blockLength 64
+    for n in TY:
+        msgs += ('    <sbe:message name="mt_%d" id="%d">\n'
+                 '        <group name="g" id="1" dimensionType="d_%d_16" blockLength="64">\n'
+                 '            <field name="x" id="1" type="uint8"/>\n'
+                 '        </group>\n'
+                 '    </sbe:message>\n') % (n, mid, n)
+        mid += 1
+        msgs += ('    <sbe:message name="mtd_%d" id="%d">\n'
+                 '        <group name="g" id="1" dimensionType="d_%d_16" blockLength="64">\n'
+                 '            <field name="x" id="1" type="uint8"/>\n'
+                 '            <data name="d" id="2" type="vd"/>\n'
+                 '        </group>\n'
+                 '    </sbe:message>\n') % (n, mid, n)
+        mid += 1
     return '''<?xml version="1.0" encoding="UTF-8"?>
 <sbe:messageSchema xmlns:sbe="http://fixprotocol.io/2016/sbe" package="c12" id="1" version="0" byteOrder="littleEndian">
     <types>
